@@ -469,3 +469,51 @@ def pattern_fragments(db, ctx):
                "%s = %r is used %d time(s); uses outside pattern construction: %s" % (k.split("::")[-1], frags[k], len(us), bad), fn=us[0][0] if us else None,
                nontrivial=bool(us))
     ctx.floor(3)
+
+
+@rule("C16.bos-consistency", "the dictionary look-back offset `bos + length` of NonBreakChecker is relative to the text handed to get_eos: either every writer of "
+                             "`bos` stores 0 (the detector then receives the text from the sentence start on), or no caller hands get_eos a re-based sub-slice "
+                             "together with a non-zero `bos` (the offset would be applied twice from the second sentence on)")
+def bos_consistency(db, ctx):
+    from ..db import walk, is_call, callee, call_args, path_ends, render, peel, lit_int, deref_let
+    writers = []
+    for f in db.fns.values():
+        if not f.hir or f.pkg not in ("sudachi", "sudachi_cli", "sudachi-cli", "sudachipy"):
+            continue
+        for n, _ in walk(f.hir):
+            if n.get("k") == "Struct" and (n.get("path") or "").endswith("NonBreakChecker"):
+                for fl in n.get("fields", []):
+                    if fl["name"] == "bos":
+                        writers.append((f, fl["e"], n))
+            if n.get("k") in ("Assign", "AssignOp") and peel(n["l"]).get("k") == "Field" and peel(n["l"]).get("name") == "bos" and "NonBreakChecker" in (peel(n["l"]).get("adt") or ""):
+                writers.append((f, n["r"], n))
+    if not writers:
+        raise AnchorMissing("a writer of NonBreakChecker.bos")
+    nonzero = [(f, e, n) for f, e, n in writers if lit_int(e) != 0 or n.get("k") == "AssignOp"]
+    rebased = []
+    ncalls = 0
+    for f in db.fns.values():
+        if not f.hir or f.pkg not in ("sudachi", "sudachi_cli", "sudachi-cli", "sudachipy"):
+            continue
+        for c, _ in walk(f.hir):
+            if is_call(c) and path_ends(callee(c) or "", "SentenceDetector::get_eos"):
+                a = call_args(c)
+                has_checker = len(a) > 2 and "None" != render(a[2]).split("::")[-1]
+                if not has_checker:
+                    continue
+                ncalls += 1
+                txt = peel(deref_let(peel(a[1])))
+                while isinstance(txt, dict) and txt.get("k") in ("AddrOf", "Deref", "Unary"):
+                    txt = peel(deref_let(peel(txt.get("e"))))
+                if isinstance(txt, dict) and txt.get("k") == "Index":
+                    r = render(txt.get("i"))
+                    if "RangeFull" not in r and not r.replace(" ", "").startswith("ops::RangeTo{"):
+                        rebased.append((f, render(txt)[:60]))
+    for i, (f, e, n) in enumerate(writers):
+        ctx.ob("bos-writer|%s#%d" % (f.short(), i + 1), lit_int(e) == 0 or not rebased,
+               "%s writes NonBreakChecker.bos = `%s`; get_eos call sites that pass a checker together with a re-based sub-slice: %s%s" % (
+                   f.short(), render(e)[:60], [(g.short(), t) for g, t in rebased],
+                   "" if (lit_int(e) == 0 or not rebased) else " — the look-back position is bos + length INSIDE that sub-slice: the offset is applied twice"),
+               fn=f, site=n.get("sp"))
+    ctx.ob("get_eos-calls", ncalls >= 1, "%d get_eos call site(s) with a checker inspected (floor 1)" % ncalls, nontrivial=False)
+    ctx.floor(2)
